@@ -5,9 +5,42 @@ import (
 	"fmt"
 	"net"
 	"runtime"
+	"sync"
 	"sync/atomic"
 	"time"
+
+	"github.com/0xReLogic/Helios/internal/loadbalancer"
 )
+
+// Pools are constructed once per parameter triple and reused: every NewWebSocketPool starts a janitor
+// goroutine that can never be stopped (Shutdown does not end it), so one pool per case would leave
+// tens of thousands of 30 s tickers behind in a thorough run and starve the test goroutine when they
+// fire together. A case starts and ends with Shutdown, which leaves the pool observably empty (the
+// case verifies Stats 0/0 before it begins); the parameter space is small (<= 192 + 4 pools).
+var poolCache = struct {
+	mu sync.Mutex
+	m  map[[3]int]*loadbalancer.WebSocketPool
+}{m: map[[3]int]*loadbalancer.WebSocketPool{}}
+
+// cachedPool returns the process-wide pool for the parameters, emptied by Shutdown. It must be called
+// from outside a synctest bubble (the janitor goroutine is started on first use).
+func cachedPool(maxIdle, maxActive int, idleTimeout time.Duration, backends int) (*loadbalancer.WebSocketPool, string) {
+	poolCache.mu.Lock()
+	defer poolCache.mu.Unlock()
+	k := [3]int{maxIdle, maxActive, int(idleTimeout / time.Second)}
+	p, ok := poolCache.m[k]
+	if !ok {
+		p = loadbalancer.NewWebSocketPool(maxIdle, maxActive, idleTimeout)
+		poolCache.m[k] = p
+	}
+	p.Shutdown()
+	for b := 0; b < backends; b++ {
+		if idle, active := p.Stats(backendKey(b)); idle != 0 || active != 0 {
+			return p, fmt.Sprintf("before the first event: after Shutdown, Stats(%d) = %d idle / %d active, want 0/0", b, idle, active)
+		}
+	}
+	return p, ""
+}
 
 // fakeConn is a net.Conn that records Close calls. Concurrent sub-checks use the owner mark: 0 =
 // nobody holds it outside the pool, k+1 = actor k holds it.
